@@ -46,7 +46,7 @@ func TestCheck(t *testing.T) {
 	defer r.Finish()
 	r.SetRule("syntactically valid ClientHellos from an independent byte-level generator (arbitrary extension types/order/contents, GREASE, 60 B..16 KiB, legacy versions 0x0301-0x0303, " +
 		"version lists TLS1.0-1.3, session ids 0..32, suite lists 1..200, compression lists 1..3) x ECH state {none, GREASE, inner marker without keys, unknown config id, known id + garbage, " +
-		"sealed to another key with the same id, TLS1.2-only hello carrying a valid ECH, valid ECH with no keys} x key sets {none, unrelated, same id}, plus real crypto/tls first flights (TLS 1.2 and 1.3); " +
+		"sealed to another key with the same id, TLS1.2-only hello carrying a valid ECH, valid ECH with no keys, legacy hello without extensions block, hello fragmented across records (larger than a record, or cut at arbitrary points)} x key sets {none, unrelated, same id}, plus real crypto/tls first flights (TLS 1.2 and 1.3); " +
 		"each followed by random record streams in both directions with random chunking. distinct = distinct (class, #extensions, size bucket, legacy version, key-set kind) combinations that were passed through")
 	r.Assume("tlswire (independent codec) decides syntactic validity and extracts SNI/ALPN; crypto/tls server (GetConfigForClient) is used as the independent TLS stack whenever it parses the forwarded hello",
 		"only single-record hellos with one host_name entry and no duplicate extension types are generated")
